@@ -44,6 +44,8 @@ theorem link_is_charge : IsCharge linkCheck := by
     have : runSteps linkCheck ((k + 1 : Nat) : Int) = some (k : Int) := by unfold linkCheck; charge_tac
     rw [this]; simp
 
+/-- the root is charged before it is loaded, and WalkAdv continues on the same counter; `run`
+    branches on both flags, and every theorem below rewrites with these two facts -/
 theorem wiring : rootCheckBeforeLoad = true ∧ sharedCounter = true := ⟨rfl, rfl⟩
 
 /-! ### the traversal under a budget handed to the TraversalBuilder -/
@@ -65,8 +67,8 @@ theorem traverse_budget (avail : Cid → Bool) (c : Cid) (kids : List LT) (k : N
         (if (travL avail kids).length ≤ k then ⟨c :: travL avail kids, .ok⟩
          else ⟨c :: (travL avail kids).take k, .budgetExceeded⟩)
       else ⟨[c], .rootMissing⟩ := by
-  unfold traverse run
-  simp only [root_is_charge k]
+  unfold traverse run walkKids
+  simp only [wiring.1, wiring.2, if_true, root_is_charge k]
   rw [travBL_eq linkCheck link_is_charge avail kids k]
   unfold expect
   by_cases ha : avail c = true
@@ -120,6 +122,45 @@ theorem exact (avail : Cid → Bool) (t : LT) (N : Nat) (hN : 1 ≤ N) (h : need
         simp [need, trav, ha] at h; omega
       simp [ha, hl, trav]; omega
     · simp [need, trav, ha] at h
+
+/-! ### "blocks": load attempts vs. successful loads
+
+go-ipld-prime charges the counter in `loadLink` *before* the load is attempted (checkLinkBudget, then
+`LinkSystem.Load`), and graphsync answers a block it does not have with `traversal.SkipMe`: the charge
+stays.  So the budget counts load **attempts** (`loads`, `need`), which is how `cap` / `enough` / `exact`
+above read "blocks".  Under the other reading (blocks actually loaded = attempts whose block is
+available) `cap` still holds, `exact` becomes "at most N", and `enough` is false of the code. -/
+
+/-- blocks actually loaded among the attempts -/
+def successes (avail : Cid → Bool) (loads : List Cid) : Nat := (loads.filter avail).length
+
+/-- cap, successful-loads reading -/
+theorem cap_success (avail : Cid → Bool) (t : LT) (N : Nat) (hN : 1 ≤ N) :
+    successes avail (traverse avail (some (N : Int)) t).loads ≤ N :=
+  Nat.le_trans (List.length_filter_le _ _) (cap avail t N hN)
+
+/-- exact, successful-loads reading: the budget error comes after N attempts, of which at most N
+    (possibly fewer, see `exact_success_strict`) loaded a block -/
+theorem exact_success (avail : Cid → Bool) (t : LT) (N : Nat) (hN : 1 ≤ N) (h : need avail t > N) :
+    (traverse avail (some (N : Int)) t).outcome = .budgetExceeded ∧
+    successes avail (traverse avail (some (N : Int)) t).loads ≤ N :=
+  ⟨(exact avail t N hN h).1, cap_success avail t N hN⟩
+
+/-- root 0 present, children 1 and 2 missing, child 3 present -/
+def exMissing : LT := .node 0 [.node 1 [], .node 2 [], .node 3 []]
+def exAvail : Cid → Bool := fun c => c == 0 || c == 3
+
+/-- with misses the failure can come after fewer than N *successful* loads (here 1 of N = 3) -/
+theorem exact_success_strict :
+    need exAvail exMissing > 3 ∧ (traverse exAvail (some 3) exMissing).outcome = .budgetExceeded ∧
+    successes exAvail (traverse exAvail (some 3) exMissing).loads = 1 := by decide
+
+/-- `enough` is false under the successful-loads reading: this traversal loads only 2 blocks
+    (root and child 3) when unbudgeted, yet fails under budget 3 because the two misses are charged.
+    The property is therefore stated (and holds) for load attempts. -/
+theorem enough_success_counterexample :
+    successes exAvail (trav exAvail exMissing) ≤ 3 ∧
+    (traverse exAvail (some 3) exMissing).outcome = .budgetExceeded := by decide
 
 /-! ### which budget applies: the smaller non-zero of the global and the per-request limit -/
 
